@@ -218,7 +218,117 @@ theorem strip_keeps_ops_in_order (cs : List ChangeShape) (h : ∀ c ∈ cs, c.ha
     simp only [strip, List.filter_cons]
     by_cases hp : c.hasPresence = true <;> by_cases ho : c.hasOps = true <;> simp_all
 
+
+/-! ### interleaving independence and batching (added) -/
+
+theorem lastOf_eq_filter (x : Actor) (ops : List POp) :
+    lastOf x ops = ((ops.filter (fun op => op.actor = x)).getLast?).map (·.change) := by
+  induction ops with
+  | nil => simp [lastOf]
+  | cons op r ih =>
+    simp only [lastOf, ih, List.filter_cons]
+    by_cases h : op.actor = x
+    · simp only [h, decide_true, if_true]
+      cases hr : r.filter (fun op => decide (op.actor = x)) with
+      | nil => simp
+      | cons y ys =>
+        have hne : (y :: ys).getLast? = some ((y :: ys).getLast (by simp)) := List.getLast?_eq_some_getLast _
+        simp [hne]
+    · simp only [h, decide_false, if_false, Bool.false_eq_true]
+      cases ((r.filter (fun op => decide (op.actor = x))).getLast?) <;> simp
+
+/-- any two delivery orders that keep each actor's own presence changes in that actor's order
+    (which is all the protocol guarantees between different actors) give the same presence map:
+    the map depends on the history only through its per-actor projections -/
+theorem presence_interleaving_independent (ops₁ ops₂ : List POp)
+    (h : ∀ x, ops₁.filter (fun op => op.actor = x) = ops₂.filter (fun op => op.actor = x)) :
+    (ops₁.foldl execute PMap.init).data = (ops₂.foldl execute PMap.init).data := by
+  funext x
+  rw [presence_register, presence_register, lastOf_eq_filter, lastOf_eq_filter, h x]
+
+/-- an actor that never appears in the applied history has no entry (no presence is invented) -/
+theorem presence_absent_of_no_change (ops : List POp) (x : Actor) (h : ∀ op ∈ ops, op.actor ≠ x) :
+    (ops.foldl execute PMap.init).data x = none := by
+  rw [presence_register, lastOf_eq_filter]
+  have : ops.filter (fun op => decide (op.actor = x)) = [] := by
+    apply List.filter_eq_nil_iff.mpr
+    intro op hop; simpa using h op hop
+  rw [this]; rfl
+
+/-- a `put` is visible with exactly its data on every replica that applied it last for that actor -/
+theorem put_visible (ops : List POp) (x : Actor) (n : Nat) (d : PData) :
+    ((ops ++ [(⟨x, n, .put d⟩ : POp)]).foldl execute PMap.init).data x = some d := by
+  rw [List.foldl_append]; simp [execute]
+
+/-- the `seen` ghost counts exactly the actor's changes applied: it is what `Pre` compares against -/
+theorem seen_counts (ops : List POp) (x : Actor) :
+    (ops.foldl execute PMap.init).seen x = (ops.filter (fun op => op.actor = x)).length := by
+  suffices ∀ m : PMap, (ops.foldl execute m).seen x =
+      m.seen x + (ops.filter (fun op => op.actor = x)).length by
+    simpa [PMap.init] using this PMap.init
+  induction ops with
+  | nil => intro m; simp
+  | cons op r ih =>
+    intro m
+    simp only [List.foldl_cons, ih, List.filter_cons, execute]
+    by_cases h : op.actor = x
+    · have hx : x = op.actor := h.symm
+      simp only [hx, if_true, decide_true, List.length_cons]; omega
+    · have hx : ¬ x = op.actor := fun e => h e.symm
+      simp [h, hx]
+
+/-- stripping is per change: stripping a concatenation of packs is the concatenation of the
+    stripped packs, so how the pushes were batched into requests does not matter -/
+theorem strip_append (a b : List ChangeShape) : strip (a ++ b) = strip a ++ strip b := by
+  induction a with
+  | nil => simp [strip]
+  | cons c r ih =>
+    simp only [List.cons_append, strip, ih]
+    split
+    · split <;> simp
+    · simp
+
+/-- stripping twice is stripping once (a retried, already stripped pack is left alone) -/
+theorem strip_idempotent (cs : List ChangeShape) : strip (strip cs) = strip cs := by
+  induction cs with
+  | nil => simp [strip]
+  | cons c r ih =>
+    simp only [strip]
+    split
+    · split
+      · exact ih
+      · simp [strip, ih]
+    · rename_i hnp
+      simp only [strip, hnp, ih]; simp
+
+/-- a change without presence passes through untouched, operations and tag included -/
+theorem strip_keeps_plain (cs : List ChangeShape) (c : ChangeShape) (hc : c ∈ cs)
+    (hp : c.hasPresence = false) : c ∈ strip cs := by
+  induction cs with
+  | nil => cases hc
+  | cons d r ih =>
+    simp only [strip]
+    rcases List.mem_cons.mp hc with rfl | hr
+    · simp [hp]
+    · split
+      · split
+        · exact ih hr
+        · exact List.mem_cons_of_mem _ (ih hr)
+      · exact List.mem_cons_of_mem _ (ih hr)
+
+theorem strip_length_le (cs : List ChangeShape) : (strip cs).length ≤ cs.length := by
+  induction cs with
+  | nil => simp [strip]
+  | cons c r ih =>
+    simp only [strip]
+    split
+    · split
+      · simp only [List.length_cons]; omega
+      · simp only [List.length_cons]; omega
+    · simp only [List.length_cons]; omega
+
 /-! non-vacuity -/
+example : (([⟨7, 0, .put []⟩, ⟨9, 0, .clear⟩] : List POp).filter (fun op => op.actor = 7)) = (([⟨9, 0, .clear⟩, ⟨7, 0, .put []⟩] : List POp).filter (fun op => op.actor = 7)) := by decide
 example : presSem.Pre PMap.init ⟨7, 0, .put [("k", "v")]⟩ := rfl
 example : (([⟨7, 0, .put [("k", "v1")]⟩, ⟨9, 0, .put []⟩, ⟨7, 1, .put [("k", "v2")]⟩] : List POp).foldl execute PMap.init).data 7
     = some [("k", "v2")] := by decide
